@@ -49,6 +49,8 @@ def check(run):
         from . import C07 as _C07g
         bg = run.borrow("C07", only=r"check_all", why="every matching rule of the list is collected by check_all")
         run.guard("C14.via.C07.2.gate-shape", cfg, lambda: _C07g.rule_gate_shape(bg, F, cfg))
+        btc = run.borrow("C01", why="the rewrite is claimed for every query string, also those with 127 or more URL tokens")
+        run.guard("C14.via.C01.4.token-boundary/unbounded", cfg, lambda: _C01.rule_token_cap_unbounded(btc, F, cfg))
 
 
 def rule_pieces(run, F, cfg):
